@@ -13,15 +13,25 @@ COMMON_NOTE = ('Trusted base: Coq 8.16.1 kernel and vm_compute (no native_comput
 
 CLAIMS = {
     'C09': dict(
-        technique='Rocq proof of what copy() keeps, of the freshness of the copies and of the shape of the new document '
-                  '(partial) + extracted-model/libadm differential run comparing copies with originals and mutating either side',
-        text='Partial. Proved (Props/Properties_C09.v, Heap/Copy.v) for all inputs: copy() keeps the concrete kind (HOA), ID, '
-             'type, blocks, times and parameters and drops parent and references; every copy made by deepCopy is a handle '
-             'that was no element before (no object is shared), the copies are pairwise distinct; the new document lists '
-             'the copies of the members in the original order and carries the version; a failed copy leaves the state '
-             'unchanged. Not proved: that the re-created reference lists are the images of the originals and independence '
-             'under later mutation; these are decided by the differential run: copies compared with originals element by '
-             'element under the handle renaming, XML of both, parents, then mutation histories on either side.',
+        technique='Rocq proof of the complete specification of a successful deepCopy (copies carry all fields and the '
+                  'images of all reference lists, nothing else changes, the result is again well-formed; Heap/CopyRefs.v, '
+                  'Heap/CopyInv.v, Heap/Joint.v) + extracted-model/libadm differential run comparing copies with originals '
+                  'and mutating either side',
+        text='Proved (Props/Properties_C09.v) for every state reached by any history of the modelled calls and every '
+             'successful Document::deepCopy from it: every field of every element that is not a copy is as before; the '
+             'copies are fresh, pairwise distinct handles (no object is shared); the new document lists the copies in the '
+             'order of the originals and carries the version; every copy has all fields of its original - concrete kind '
+             '(HOA), ID, type, blocks, times, parameters - with the new document as parent; every reference list of every '
+             'copy is the image of the original\'s list under the original -> copy map, in the same order (for an object\'s '
+             'track-UID list: as addReference replays it - silent UIDs may repeat, a repeated non-silent UID is listed '
+             'once); the copy is again well-formed, synchronised and keeps referenced and complementary objects apart, so '
+             'the statement applies to copies of copies; a failed copy leaves the state unchanged. The proof computes the '
+             'effect of every addReference/setReference call between elements that belong to no document and follows '
+             'copyAllElements\' loops; the three source invariants it needs (C03 ownership, C12 synchronisation, '
+             'disjointness of referenced and complementary objects) are proved for every reached state. Partial in two '
+             'respects: independence under later mutation is not stated as a footprint theorem (in the model distinct '
+             'handles are distinct objects; the differential run mutates either side and compares the other), and "hence '
+             'byte-identical XML" relies on C01.',
         design='8 C09'),
     'C11': dict(
         technique='Rocq proof: the labelling of pack formats, channel formats and their blocks as an invariant of every '
@@ -79,19 +89,22 @@ CLAIMS = {
              'route objects are checked on libadm by the run; termination on acyclic graphs rests on C06.',
         design='8 C18'),
     'C03': dict(
-        technique='Rocq proof of the ownership invariant over every history of the core API calls of the heap model (plans '
-                  'regenerated from src/document.cpp) + extracted-model/libadm differential run with the well-formedness oracle',
-        text='Theorems (Props/Properties_C03.v, Heap/WF.v): every state reached from the empty state by successful calls - '
-             'create, Document::add/remove, add/set/remove/unset/clear of all fifteen reference kinds including '
-             'complementary objects and the stream/track protocol, set(Id), getSilent, lookup; any length, any number of '
-             'elements and documents - lists every element once, lists it exactly when the listing document is its parent, '
-             'and every element referenced by a parented element has the same parent. Document::add is proved to attach the '
-             'whole reference closure (induction on fuel with a pending set); attaching to a second document and linking '
-             'across documents throw. The extended calls - add(block), time setters, element copy(), deepCopyTo, '
-             'reassignIds, updateBlockFormatDurations, route tracing and the object_creation helpers - are proved to keep '
-             'the invariant too (Heap/WFExt.v). Partial (theorem names _partial): Document::deepCopy alone is covered by the '
-             'differential run only. The model is tied to libadm by comparing full snapshots after every '
-             'call of generated histories; the oracle checks libadm\'s own snapshots.',
+        technique='Rocq proof of the ownership invariant over every history of all modelled API calls, Document::deepCopy '
+                  'included (plans regenerated from src/document.cpp) + extracted-model/libadm differential run with the '
+                  'well-formedness oracle',
+        text='Theorems (Props/Properties_C03.v; Heap/WF.v, Heap/WFExt.v, Heap/Joint.v): every state reached from the empty '
+             'state by successful calls - create, Document::add/remove, add/set/remove/unset/clear of all fifteen reference '
+             'kinds including complementary objects and the stream/track protocol, set(Id), getSilent, lookup, add(block), '
+             'time setters, element copy(), Document::deepCopy, deepCopyTo, reassignIds, updateBlockFormatDurations, route '
+             'tracing and the object_creation helpers; any length, any number of elements and documents - lists every '
+             'element once, lists it exactly when the listing document is its parent, and every element referenced by a '
+             'parented element has the same parent. Document::add is proved to attach the whole reference closure '
+             '(induction on fuel with a pending set); attaching to a second document and linking across documents throw. '
+             'deepCopy is covered through the proof that the copies carry the images of the originals\' reference lists '
+             '(Heap/CopyRefs.v), together with the C12 synchronisation invariant and the disjointness of an object\'s '
+             'referenced and complementary objects, all three proved jointly for every history. The model is tied to '
+             'libadm by comparing full snapshots after every call of generated histories; the oracle checks libadm\'s own '
+             'snapshots.',
         design='8 C03'),
     'C04': dict(
         technique='Rocq proof of the specification of Document::remove on the heap model (on top of the C03 invariant) + '
@@ -113,7 +126,7 @@ CLAIMS = {
              'membership list carry different IDs unless the ID is reserved, undefined, a silent track UID or a track-UID '
              'value that does not fit the 32-bit field; lookup(id) of a non-exempt ID returns exactly the member carrying '
              'it; the distinctness nextCounter relies on is derived from the invariant, not assumed. The only guard on a '
-             'history (run_ok, decidable, evaluated by the extracted model on every generated history and reported in the '
+             'history (shaped_run, decidable, evaluated by the extracted model on every generated history and reported in the '
              'evidence): an ID passed to set(Id) has the shape of its C++ type and value 0 of a pack/channel/stream-format '
              'ID belongs to the all-zero ID. Also for all inputs: nextCounter returns the least free value at or above the '
              'preferred one and keeps a free one; Document::add changes no element already in a document; set(Id) of an ID '
@@ -229,8 +242,9 @@ CLAIMS = {
              'followed by one call of any outcome. '
              'The missing half - no exception between the two writes of a linking call - is explored: libadm and the '
              'extracted model are run on generated histories over several stream and track formats and the Sync oracle is '
-             'applied to libadm after every call, including calls that throw. Parsed files and copies are covered by the '
-             'C09/C01 work.',
+             'applied to libadm after every call, including calls that throw. Copies: Sync is proved after every history '
+             'of successful calls of the extended call set - copy(), Document::deepCopy, deepCopyTo, reassignIds, block and '
+             'duration calls - (C12_sync_all_calls, Heap/Joint.v). Parsed files are covered by the C01/C02 runs.',
         design='8 C12'),
     'C17': dict(
         technique='Rocq proof of the accessor contract for rows regenerated from the hand-written accessors + generated '
